@@ -35,6 +35,8 @@ fn main() {
         "C06" => (mc, Box::new(|r| checks::c06::run(r))),
         "C07" => (mc, Box::new(|r| checks::codec::run(r, Mode::C07))),
         "C08" => (mc, Box::new(|r| checks::codec::run(r, Mode::C08))),
+        "C09" => (mc, Box::new(|r| checks::c09::run(r))),
+        "C10" => (mc, Box::new(|r| checks::c10::run(r))),
         "C11" => (ex, Box::new(|r| checks::c11::run(r))),
         "C12" => (ex, Box::new(|r| checks::amf0::run_c12(r))),
         "C13" => (ex, Box::new(|r| checks::c13::run(r))),
